@@ -11,16 +11,16 @@ enum WK { WK_LE, WK_GE, WK_NE, WK_EQ, WK_LT12, WK_NESNAP, WK_LTMAC };
 enum BF { BF_DEFAULT, BF_T2, BF_T13, BF_T02, BF_AL1, BF_AL2, BF_AM2, BF_RT1, BF_RT2, BF_ALLOW, BF_FORBID, BF_T0,
           BF_T11, BF_AL0, BF_T3, BF_T24 };
 enum RK { RK_NONE, RK_VAL, RK_LRVAL, RK_THROW_STD, RK_THROW_INT, RK_REF_PARAM, RK_REF_CELL, RK_STR, RK_LRSTR, RK_CREF_PARAM, RK_CREF_CELL, RK_CREF_CAPT,
-          RK_STR_PARAM, RK_LRSTR_VAR };
+          RK_STR_PARAM, RK_LRSTR_VAR, RK_PAIR, RK_LRPAIR_VAR };
 
 // function indices of MockT
-enum FN { FN_F1 = 0, FN_F2 = 1, FN_G = 2, FN_R = 3, FN_C = 4, FN_U = 5, FN_S = 6, FN_K = 7, FN_Z = 8, FN_V = 9, NFN = 10 };
+enum FN { FN_F1 = 0, FN_F2 = 1, FN_G = 2, FN_R = 3, FN_C = 4, FN_U = 5, FN_S = 6, FN_K = 7, FN_Z = 8, FN_V = 9, FN_P = 10, NFN = 11 };
 
-struct FnDesc { const char* name; int arity; char ret; /* i v r s k */ char argk; /* i r u s c n(one) v(ector) */ };
+struct FnDesc { const char* name; int arity; char ret; /* i v r s k p(air) */ char argk; /* i r u s c n(one) v(ector) */ };
 inline const FnDesc& fn_desc(int fn) {
-  static const FnDesc t[NFN] = {
+  static const FnDesc t[NFN] = {  // (declaration order in MockT: destruction runs backwards)
     {"f", 1, 'i', 'i'}, {"f", 2, 'i', 'i'}, {"g", 1, 'v', 'i'}, {"r", 1, 'r', 'r'},
-    {"c", 1, 'i', 'i'}, {"u", 1, 'i', 'u'}, {"s", 1, 's', 's'}, {"k", 1, 'k', 'c'}, {"z", 0, 'v', 'n'}, {"v", 1, 'v', 'v'}};
+    {"c", 1, 'i', 'i'}, {"u", 1, 'i', 'u'}, {"s", 1, 's', 's'}, {"k", 1, 'k', 'c'}, {"z", 0, 'v', 'n'}, {"v", 1, 'v', 'v'}, {"p", 1, 'p', 'i'}};
   return t[fn];
 }
 
